@@ -35,8 +35,8 @@
 #include <omp.h>
 #endif
 
-// Returns true if a is closer to cutoff than a/2.
-static inline int closer(rci_t a, int cutoff) { return 3 * a < 4 * cutoff; }
+// Returns true if a is closer to cutoff than a/2, or too small to be split on word boundaries.
+static inline int closer(rci_t a, int cutoff) { return 3 * a < 4 * cutoff || a < 2 * m4ri_radix; }
 
 mzd_t *_mzd_mul_even(mzd_t *C, mzd_t const *A, mzd_t const *B, int cutoff) {
   rci_t mmm, kkk, nnn;
